@@ -13,7 +13,7 @@ fn only_file(root: &std::path::Path) -> Vec<String> {
     snapshot(root, false, false).keys().cloned().collect()
 }
 
-fn check_case(case: &Value) -> Option<Value> {
+fn check_case(case: &Value, idx: usize) -> Option<Value> {
     let input = &case["input"].as_str().unwrap().replace('~', "\u{e9}").replace('^', "\u{fc}");
     let expect = &case["expect"].as_str().unwrap().replace('~', "\u{e9}").replace('^', "\u{fc}");
     // 1. file appender
@@ -32,6 +32,26 @@ fn check_case(case: &Value) -> Option<Value> {
                 let dbg = format!("{:?}", a);
                 if !dbg.contains(&format!("{:?}", std::path::PathBuf::from(format!("{}/p-{}.log", s.path().display(), expect)))) {
                     return Some(json!({"site": "FileAppender", "what": "path shown by Debug", "debug": dbg}));
+                }
+            }
+        }
+    }
+    // 1b. the reference at the very beginning of the path: a relative path (the process's working directory is a
+    // scratch directory of its own); skipped where the expansion would be an absolute path
+    if !expect.starts_with('/') && !input.starts_with('/') {
+        let rel_in = format!("{}.rel{}.log", input, idx);
+        let rel_want = format!("{}.rel{}.log", expect, idx);
+        match catch(|| log4rs::append::file::FileAppender::builder().build(&rel_in)) {
+            Err(pn) => return Some(json!({"site": "FileAppender (relative path)", "what": "panic", "error": pn})),
+            Ok(Err(e)) => return Some(json!({"site": "FileAppender (relative path)", "what": "build failed", "error": e.to_string()})),
+            Ok(Ok(_a)) => {
+                let ok = std::path::Path::new(&rel_want).is_file();
+                let stray = rel_in != rel_want && std::path::Path::new(&rel_in).is_file();
+                let _ = std::fs::remove_file(&rel_want);
+                if !ok || stray {
+                    let _ = std::fs::remove_file(&rel_in);
+                    return Some(json!({"site": "FileAppender (relative path)", "what": "file location", "expected": rel_want,
+                                       "created_unexpanded_name": stray}));
                 }
             }
         }
@@ -133,8 +153,10 @@ pub fn main(args: &[String]) {
         std::env::remove_var(u.as_str().unwrap());
     }
     let cases: Vec<&Value> = rows.iter().filter(|r| r.get("meta").is_none()).collect();
+    let cwd = Scratch::new("envcwd");
+    std::env::set_current_dir(cwd.path()).unwrap();
     let res = par_map(&cases, threads(), |i, c| {
-        check_case(c).into_iter().map(|m| json!({"case": i, "input": c["input"], "expected_expansion": c["expect"], "mismatch": m})).collect()
+        check_case(c, i).into_iter().map(|m| json!({"case": i, "input": c["input"], "expected_expansion": c["expect"], "mismatch": m})).collect()
     });
     write_ndjson(&args[1], &res);
     println!("{}", json!({"cases": cases.len(), "mismatches": res.len()}));
